@@ -115,6 +115,11 @@ def rand_value(rng, bits):
     if r < 0.50:
         k = rng.randrange(bits + 1)
         return ((1 << k) + rng.choice([-1, 1])) % m
+    if r < 0.60:
+        # sparse: whole limbs zero at the low end, the high end and in the middle at once (kernels
+        # that trim or skip zero limbs take different paths for each combination)
+        n = nlimbs(bits)
+        return from_limbs([0 if rng.random() < 0.5 else rand_limb(rng) for _ in range(n)]) % m
     if r < 0.85:
         n = nlimbs(bits)
         return from_limbs([rand_limb(rng) for _ in range(n)]) % m
